@@ -1951,9 +1951,16 @@ class FileHashStore(HashStore):
                         for cid_pid_line in ref_file.readlines()
                         if cid_pid_line.strip() != ref_id
                     ]
-                    ref_file.seek(0)
-                    ref_file.writelines(new_pid_lines)
-                    ref_file.truncate()
+                    # Write the remaining refs into a tmp file and move it into place. Rewriting
+                    # in place takes two steps (write, then truncate): a process that dies in
+                    # between leaves new bytes followed by the old tail, which may not even be
+                    # valid utf8, and every pid that shares the cid becomes unreadable.
+                    tmp_root_path = self._get_store_path("refs") / "tmp"
+                    with self._mktmpfile(tmp_root_path) as tmp_file:
+                        tmp_file_path = tmp_file.name
+                    with open(tmp_file_path, "w", encoding="utf8") as tmp_ref_file:
+                        tmp_ref_file.writelines(new_pid_lines)
+                    shutil.move(tmp_file_path, refs_file_path)
             debug_msg = (
                 f"Update ({update_type}) for ref_id: {ref_id} "
                 + f"completed on refs file: {refs_file_path}."
